@@ -53,6 +53,7 @@ def check(ctx):
     ctx.run(r07_9, g)
     ctx.run(r07_10, g)
     ctx.run(r07_11, g)
+    ctx.run(r07_13, g, _independent=True)
     ctx.run(c06.r06_4_caller, oc.build(ctx, "R06.4"))  # (BO, NO) order of the written S lines: the tags written are those computed, the counter is not disturbed
     ctx.not_decided += [
         "file-level equality on every GFA (tags round-trip through a dict: a repeated tag name on one S line keeps the last value)",
@@ -838,3 +839,20 @@ def r07_11(ctx, g):
                 bad = p
         ctx.check(bad is None, "R07.11", wf.where(lp), f"a link read without optional fields (handed to add_edge as {t0}, {'stored' if stored else 'not stored'} by it) is still written: every consistent path of the writer's neighbour loop emits its L line", key_of(wf, f"tagless-link-written:{norm(lp.iter)[-6:]}:{t0}:{stored}"), **({"path": bad.show()} if bad else {}))
     ctx.require_count("R07.11", n_cons, 2, wf.where(), "writer paths consistent with a link that has no optional fields")
+
+
+def r07_13(ctx, g):
+    """Line discipline of the writer: what is written to the GFA handle ends its line.  A block written as
+    `handle.write("\n".join(lines))` has no line end after its last line: the next thing written to the file — or the first
+    line of the next per-chromosome file when the files are concatenated — continues that line, and two records become one."""
+    w = g.raw["write_gfa"] if hasattr(g, "raw") else g.write_gfa
+    n = 0
+    for c in walk_own(w.node):
+        if isinstance(c, ast.Call) and isinstance(c.func, ast.Attribute) and c.func.attr in ("write", "writelines") and len(c.args) == 1:
+            a = c.args[0]
+            n += 1
+            if c.func.attr == "write" and isinstance(a, ast.Call) and isinstance(a.func, ast.Attribute) and a.func.attr == "join" and const_value(a.func.value, None) == "\n":
+                ctx.violated("R07.13", w.where(c), f"`{norm(c)[:60]}` writes a block of lines without a line end after the last one: the file does not end with a newline, and when the per-chromosome files are put together the last L line of one chromosome and the first of the next become one line (one link lost, one corrupted)", key_of(w, f"block-without-newline:{norm(a)[:40]}"))
+    ctx.require_count("R07.13", n, 1, w.where(), "writes to the GFA handle")
+    if not any(i.rule == "R07.13" and i.verdict == "violated" for i in ctx.instances):
+        ctx.holds("R07.13", w.where(), "no block of lines is written without its final line end")
